@@ -774,6 +774,18 @@ impl<'a, 'b> Gen<'a, 'b> {
                 2 => V::A(self.c.bytes(3)),
                 _ => nil(),
             }
+        } else if self.c.chance(40) {
+            // data that looks like code: a short list headed by a small opcode number
+            // (q a i c f r l x =), e.g. (5 2) (6 3) (2 (1 . 5) 1) -- an optimiser that walks
+            // into quoted data would take these for operator forms
+            self.feat("quoted-data-looks-like-code");
+            let head = int(*self.c.choose(&[1i64, 2, 3, 4, 5, 6, 7, 8, 9, 5, 6]));
+            let n = self.c.range(1, 2);
+            let mut items = vec![head];
+            for _ in 0..n {
+                items.push(if self.c.chance(170) { int(self.c.range(1, 40) as i64) } else { self.lit_data(depth - 1) });
+            }
+            list(items)
         } else {
             let n = self.c.range(1, 3);
             let items = (0..n).map(|_| self.lit_data(depth - 1)).collect();
